@@ -40,6 +40,7 @@ def function_classes():
             self.components = list(components)
             self.names = names
             self.integer_valued = integer_valued   # eval() hands out an integer-typed array (counts, labels, indicators)
+            self.magnitude = 1.0                    # natural size of the values (tolerances of linear relations scale with it)
             self.eval_points = {}
             self.eval_calls = 0
             self.since_mark = None
